@@ -1,16 +1,23 @@
 package server
 
 import (
+	"context"
 	"fmt"
+	"log/slog"
 	"math/rand"
 	"net"
 	"net/netip"
 	"runtime"
 	"sort"
+	"strings"
 	"testing"
 	"time"
 
+	"example.com/scion-time/core/client"
+	"example.com/scion-time/net/scion"
+	"example.com/scion-time/net/udp"
 	"github.com/google/gopacket"
+	"github.com/scionproto/scion/pkg/segment/iface"
 	"github.com/scionproto/scion/pkg/slayers"
 	"github.com/scionproto/scion/pkg/slayers/path"
 	"github.com/scionproto/scion/pkg/snet"
@@ -646,5 +653,42 @@ func TestC13ViaDispatcher(t *testing.T) {
 		c := c13NewClient(lc, true)
 		off, err := c13Measure(t, lc, c, cliHost, srv, c13Path(dp, relay.addr()), 300*time.Millisecond)
 		t.Logf("%s: off=%v err=%v %q", name, off, err, lc.all())
+	}
+}
+
+// seven clients of one reference clock sharing one DRKey fetcher, as in timeservice.go
+func TestC13SevenClients(t *testing.T) {
+	host := "127.0.0.1"
+	srv := c13StartServer(t, host, 0, 0, true)
+	relay := c13StartRelay(t, host, srv)
+	lc := &c13LogCapture{}
+	f := scion.NewFetcher(&c13Daemon{})
+	var cs []*client.SCIONClient
+	for i := 0; i < 7; i++ {
+		c := &client.SCIONClient{Log: slog.New(lc), InterleavedMode: true}
+		c.Auth.Enabled = true
+		c.Auth.DRKeyFetcher = f
+		cs = append(cs, c)
+	}
+	for round := 0; round < 5; round++ {
+		var ps []snet.Path
+		for i := 0; i < 7; i++ {
+			ps = append(ps, spath.Path{Src: c13CliIA, Dst: c13SrvIA,
+				DataplanePath: spath.SCION{Raw: c13RawPath(2, 1+i)}, NextHop: relay.addr(),
+				Meta: snet.PathMetadata{Interfaces: []snet.PathInterface{{IA: c13CliIA, ID: 1}, {IA: c13SrvIA, ID: iface.ID(2 + i)}}}})
+		}
+		ctx, cancel := context.WithTimeout(context.Background(), time.Second)
+		laddr := udp.UDPAddr{IA: c13CliIA, Host: &net.UDPAddr{IP: net.ParseIP(host)}}
+		raddr := udp.UDPAddr{IA: c13SrvIA, Host: net.UDPAddrFromAddrPort(srv)}
+		lc.reset()
+		_, off, err := client.MeasureClockOffsetSCION(ctx, slog.New(lc), cs, laddr, raddr, ps)
+		cancel()
+		n := 0
+		for _, r := range lc.all() {
+			if strings.Contains(r, "received response auth=true") {
+				n++
+			}
+		}
+		t.Logf("round %d: off=%v err=%v authenticated responses=%d", round, off, err, n)
 	}
 }
